@@ -257,6 +257,12 @@ def merge_to_number(desired_chunks, max_number):
     if len(desired_chunks) <= max_number:
         return desired_chunks
 
+    if 0 in desired_chunks:
+        # Zero-width chunks merge into a neighbour for free, and a width of 0
+        # marks an already merged slot in the heap walk below.
+        nonzero = tuple(c for c in desired_chunks if c)
+        return merge_to_number(nonzero, max_number) if nonzero else (0,)
+
     distinct = set(desired_chunks)
     if len(distinct) == 1:
         w = distinct.pop()
